@@ -12,11 +12,13 @@ use vcommon::Rng;
 
 pub struct Ring {
     next: RefCell<Option<Cc<Ring>>>,
+    other: RefCell<Option<Cc<Ring>>>,
     _pad: [u8; 40],
 }
 unsafe impl Trace for Ring {
     fn trace(&self, ctx: &mut Context<'_>) {
         self.next.trace(ctx);
+        self.other.trace(ctx);
     }
 }
 impl Finalize for Ring {}
@@ -171,7 +173,7 @@ fn steer(p: &mut P, rng: &mut Rng) {
             let pre = oracle::pre_new(wd);
             let r = {
                 let _g = FrameGuard::api(Frame::ApiNew);
-                Cc::new(Ring { next: RefCell::new(None), _pad: [0; 40] })
+                Cc::new(Ring { next: RefCell::new(None), other: RefCell::new(None), _pad: [0; 40] })
             };
             oracle::post_new(wd, &pre, true, "Cc::new");
             let second = r.clone();
@@ -198,6 +200,7 @@ pub fn run(rep: &mut Report, seed: u64, rounds: u64, steps: u64, props: &std::co
         wd.epoch.set(wd.epoch.get() + 1);
         *wd.m.borrow_mut() = crate::model::Model::new();
         wd.errs.borrow_mut().clear();
+        wd.stop_now.set(false);
         wd.in_collection.set(false);
         wd.degraded.set(false);
         wd.fault_fired.set(0);
@@ -235,12 +238,38 @@ pub fn run(rep: &mut Report, seed: u64, rounds: u64, steps: u64, props: &std::co
                         let pre = oracle::pre_new(wd);
                         let a = {
                             let _g = FrameGuard::api(Frame::ApiNew);
-                            Cc::new(Ring { next: RefCell::new(None), _pad: [0; 40] })
+                            Cc::new(Ring { next: RefCell::new(None), other: RefCell::new(None), _pad: [0; 40] })
                         };
                         oracle::post_new(wd, &pre, true, "Cc::new");
                         *a.next.borrow_mut() = Some(a.clone());
                         let _g = FrameGuard::api(Frame::ApiDrop);
                         drop(a);
+                    }
+                }
+                15 => {
+                    // garbage that owns second handles to live shared objects: its destructors release them inside the
+                    // collection, so the shared objects are buffered when the collection ends (a collection that leaves
+                    // more than the buffered threshold behind: the creation that started it must still start only one)
+                    let k = 2 + rng.idx(7);
+                    for _ in 0..k {
+                        let wd = w();
+                        let pre = oracle::pre_new(wd);
+                        let shared = {
+                            let _g = FrameGuard::api(Frame::ApiNew);
+                            Cc::new(Ring { next: RefCell::new(None), other: RefCell::new(None), _pad: [0; 40] })
+                        };
+                        oracle::post_new(wd, &pre, true, "Cc::new");
+                        let pre = oracle::pre_new(wd);
+                        let g = {
+                            let _g = FrameGuard::api(Frame::ApiNew);
+                            Cc::new(Ring { next: RefCell::new(None), other: RefCell::new(None), _pad: [0; 40] })
+                        };
+                        oracle::post_new(wd, &pre, true, "Cc::new");
+                        *g.next.borrow_mut() = Some(g.clone());
+                        *g.other.borrow_mut() = Some(shared.clone());
+                        p.pairs.push((shared, None));
+                        let _g = FrameGuard::api(Frame::ApiDrop);
+                        drop(g);
                     }
                 }
                 12 => set_config(&mut rng),
@@ -317,5 +346,6 @@ pub fn run(rep: &mut Report, seed: u64, rounds: u64, steps: u64, props: &std::co
         }
         collect_cycles();
         wd.errs.borrow_mut().clear();
+        wd.stop_now.set(false);
     }
 }
